@@ -20,7 +20,7 @@ import time
 
 REPO = os.environ.get("VERIF_REPO", "/repo")
 SRC = os.path.join(os.path.realpath(os.path.join(REPO, "src")), "celpy") + os.sep
-WAIT_S = float(os.environ.get("VERIF_C16_WAIT", "10"))
+WAIT_S = float(os.environ.get("VERIF_C16_WAIT", "4"))
 
 
 def celpy_mod():
